@@ -406,7 +406,7 @@ theorem pollout_restored (E : Engine σ) (x : ASt σ ω) (h : Armed x) (hinit : 
 
 /-! ## `Write`: count and retry discipline (what C01/C02 need from the TLS socket) -/
 
-def pendingAssert : String := "assert(pendingSend.empty() || pendingSend == remaining)"
+def pendingAssert : String := "assert(pendingSend.empty() || pendingSend.size() == remaining.size())"
 
 /-- loop invariant of `Write`: the calls logged so far form a chain that leaves `rest`; `pendingSend`
 is empty or equal to what will be passed next -/
@@ -474,7 +474,7 @@ theorem writeRound_chain {W : World ω} (C : Cfg) (E : Engine σ) (data : Bytes)
   have hctl := interp_ctl (W := W) s (E.sslWrite s.e rest)
   have hna := interp_no_abort (W := W) s (E.sslWrite s.e rest)
   unfold writeRound
-  rw [if_neg (by intro hc; exact hc.2 hpend)]
+  rw [if_neg (by intro hc; exact hc.2 (hpend.imp id (congrArg List.length)))]
   rcases hi : interp W s (E.sslWrite s.e rest) with ⟨o, s1⟩
   rw [hi] at hctl hna
   obtain ⟨_, hps, hec, _⟩ := hctl
@@ -713,7 +713,7 @@ theorem tlsWrite_complete {W : World ω} (C : Cfg) (hfix : C.fixRoundReset = tru
     intro i' rest s0 hp0 _
     have hs := interp_spec (W := W) _ _ (hE s0.e rest) s0
     unfold writeRound
-    rw [if_neg (by intro hc; exact hc.2 hp0)]
+    rw [if_neg (by intro hc; exact hc.2 (hp0.imp id (congrArg List.length)))]
     rcases hi : interp W s0 (E.sslWrite s0.e rest) with ⟨o, s1⟩
     rw [hi] at hs
     cases o with
